@@ -71,6 +71,58 @@ fn eval(name: &str, a: &[Value]) -> Value {
                 Some((h, t)) => json!({"Some": [h, t]}),
             }
         }
+        "markdown_tokens" => {
+            // args: [lines: [str], languages: [str]]
+            let lines: Vec<String> = a[0].as_array().unwrap().iter().map(str_arg).collect();
+            let langs: Vec<String> = a[1].as_array().unwrap().iter().map(str_arg).collect();
+            let langs: Vec<&str> = langs.iter().map(|s| s.as_str()).collect();
+            let text = lines.join("\n");
+            let toks = scrut::parsers::markdown::verif_hooks::tokenize(&text, &langs);
+            let mut accounted = 0usize;
+            let mut consistent = true;
+            let mut shape = vec![];
+            for (kind, count, carried) in &toks {
+                shape.push(format!("{}:{}", kind, count));
+                for (index, content) in carried {
+                    if *index >= lines.len() || lines[*index] != *content || *index < accounted || *index >= accounted + count {
+                        consistent = false;
+                    }
+                }
+                accounted += count;
+            }
+            if accounted == lines.len() + 1 {
+                if let Some((kind, _, _)) = toks.last() {
+                    if *kind == "config" || *kind == "test" {
+                        // block without closing line that runs to the end of the document
+                        accounted -= 1;
+                    }
+                }
+            }
+            let why = if accounted < lines.len() {
+                // which construct swallowed the tail?
+                let rest = &lines[accounted..];
+                if rest.first().map(|l| l == "---").unwrap_or(false) { "unterminated-front-matter" } else { "unterminated-fence" }
+            } else if accounted > lines.len() { "overcount" } else if !consistent { "content-mismatch" } else { "" };
+            json!({"accounted": accounted, "consistent": consistent, "shape": shape.join(" "), "why": why})
+        }
+        "markdown_parse" => {
+            use scrut::parsers::parser::Parser;
+            let text = str_arg(&a[0]);
+            let langs: Vec<String> = a[1].as_array().unwrap().iter().map(str_arg).collect();
+            let langs: Vec<&str> = langs.iter().map(|s| s.as_str()).collect();
+            let maker = std::sync::Arc::new(scrut::expectation::ExpectationMaker::new(
+                scrut::rules::registry::RuleRegistry::default(),
+            ));
+            let parser = scrut::parsers::markdown::MarkdownParser::new(maker, &langs, None);
+            match parser.parse(&text) {
+                Ok((_config, tests)) => json!({"Ok": tests.iter().map(|t| json!({
+                    "title": t.title, "shell_expression": t.shell_expression, "line_number": t.line_number,
+                    "exit_code": t.exit_code,
+                    "expectations": t.expectations.iter().map(|e| e.original_string()).collect::<Vec<_>>(),
+                })).collect::<Vec<_>>()}),
+                Err(e) => json!({"Err": format!("{:#}", e)}),
+            }
+        }
         "max_backtick_size" => {
             json!(scrut::generators::markdown::verif_hooks::max_backtick_size(&str_arg(&a[0])))
         }
